@@ -679,13 +679,26 @@ def id(op, **kwargs):
     return globals()["op"](op, el_op=el_op, implicit_output="bijective", **kwargs)
 
 
-def elementwise(op, **kwargs):
+def elementwise(op, arity=None, **kwargs):
     def el_op(op):
-        n_in = len(op.children[0].children)
+        # If the elementary operation accepts a fixed number of scalars (e.g. two for subtract), use that number in its
+        # signature such that a different number of input expressions is rejected
+        n_in = len(op.children[0].children) if arity is None else arity
         args_in = ", ".join("" for i in range(n_in))
         return f"{args_in} ->"
 
     return globals()["op"](op, el_op=el_op, implicit_output="bijective", **kwargs)
+
+
+# Number of scalars accepted by elementary operations that are not n-ary
+_elementwise_arity = (
+    {name: 1 for name in ["exp", "log", "negative"]}
+    | {
+        name: 2
+        for name in ["subtract", "true_divide", "floor_divide", "divide", "less", "less_equal", "greater", "greater_equal", "equal", "not_equal"]
+    }
+    | {"where": 3}
+)
 
 
 def dot(op, **kwargs):
@@ -830,7 +843,7 @@ def preserve_shape(op, **kwargs):
 
 
 _name_to_op = (
-    {name: elementwise for name in adapter.ops.elementwise}
+    {name: partial(elementwise, arity=_elementwise_arity.get(name)) for name in adapter.ops.elementwise}
     | {name: partial(reduce, cse_in_brackets=True) for name in adapter.ops.reduce}
     | {name: update_at for name in adapter.ops.update_at}
     | {name: argfind for name in adapter.ops.argfind}
